@@ -931,7 +931,7 @@ def real_parses(tier, seed):
     t0 = time.time()
     groups, extra = choose_inputs(tier, seed)
     rng = random.Random(seed * 31 + 5)
-    step, per_dialect_cli, cap = (6, 1, 1500) if tier == "quick" else (12, 12, 12000)
+    step, per_dialect_cli, cap = (6, 1, 1500) if tier == "quick" else (12, 6, 12000)
     tasks = []
     cli_other = {}
     for d, files in groups.items():
@@ -1078,7 +1078,9 @@ def self_checks(tier, seed):
     # oracle sensitivity on a hand-written tree with duplicates, a same-type child, a meta, an empty raw and a comment
     spec = ("file", (("keyword", ("kw", "ws", "kw")), "ws", ("unparsable", ("KW", "empty", "indent")), "ws", "nl", "cm", "eof"))
     t, rendered = build(spec)
-    rec = t.as_record(show_raw=True)
+    # a hand-written faithful record / human text of that tree (NOT produced by the serialisers under check)
+    rec = {"file": [{"keyword": [{"keyword": "select"}, {"whitespace": " "}, {"keyword": "select"}]}, {"whitespace": " "},
+                    {"unparsable": {"keyword": "FROM", "raw": ""}}, {"whitespace": " "}, {"newline": "\n"}, {"inline_comment": "-- c"}]}
     want = expected_entries(t, False, True, False)
     good = flatten_record(rec)[0]
     ob("C28/self-check/oracle-accepts-handwritten", good == want and "".join(v for _, _, v in good if v is not None) == rendered
@@ -1104,7 +1106,19 @@ def self_checks(tier, seed):
     for kind in ("drop-last-duplicate", "duplicates-merged-into-dict", "text-uppercased", "two-leaves-swapped", "level-un-nested", "empty-raw-leaf-skipped"):
         got = flatten_record(mutate_record(kind))[0]
         ob(f"C28/self-check/oracle-rejects[{kind}]", got != want, {"fault": kind})
-    txt = t.stringify()
+    txt = ("[L:  1, P:  1]      |file:\n[L:  1, P:  1]      |    keyword:\n"
+           "[L:  1, P:  1]      |        keyword:                                              'select'\n"
+           "[L:  1, P:  7]      |        whitespace:                                           ' '\n"
+           "[L:  1, P:  8]      |        keyword:                                              'select'\n"
+           "[L:  1, P: 14]      |    whitespace:                                               ' '\n"
+           "[L:  1, P: 15]      |    unparsable:                                               !! Expected: 'something'\n"
+           "[L:  1, P: 15]      |        keyword:                                              'FROM'\n"
+           "[L:  1, P: 19]      |        raw:                                                  ''\n"
+           "[L:  1, P: 19]      |        [META] indent:\n"
+           "[L:  1, P: 19]      |    whitespace:                                               ' '\n"
+           "[L:  1, P: 20]      |    newline:                                                  '\\n'\n"
+           "[L:  2, P:  1]      |    inline_comment:                                           '-- c'\n"
+           "[L:  2, P:  5]      |    [META] end_of_file:\n")
     lv, bad = parse_stringify(txt)
     ob("C28/self-check/stringify-parser-reads-handwritten", not bad and [x[1:] for x in lv] ==
        [("keyword", False, "select"), ("whitespace", False, " "), ("keyword", False, "select"), ("whitespace", False, " "), ("keyword", False, "FROM"),
@@ -1176,6 +1190,8 @@ MUTANTS = [
      "    def to_tuple(\n        self,\n        code_only: bool = False,", "    def to_tuple(\n        self,\n        code_only: bool = True,"),
     ("stringify_skips_comments", _B,
      "                if not code_only or seg.is_code:\n", "                if (not code_only or seg.is_code) and not seg.is_comment:\n"),
+    ("stringify_children_reversed", _B,
+     "            for seg in self.segments:\n                # If we're in code_only, only show the code segments", "            for seg in reversed(self.segments):\n                # If we're in code_only, only show the code segments"),
     ("cli_json_built_code_only", "sqlfluff/cli/commands.py",
      "                segments = root_variant.tree.as_record(\n                    code_only=code_only,", "                segments = root_variant.tree.as_record(\n                    code_only=True,"),
     ("cli_yaml_sorts_keys", "sqlfluff/cli/commands.py", "                sort_keys=False,", "                sort_keys=True,"),
